@@ -293,6 +293,23 @@ def run(ctx: Ctx, extended: bool = False) -> None:
         if eg is not None and not tree_close(eg, ref, tol=2e-5):
             ctx.fail(label.split(":")[0], "variant:eager", f"eager and jit disagree on a boundary transition ({label}) at {first_diff(eg, ref)}",
                      {"env": label, "action": np.asarray(ba).tolist()}, {"cls": label.split("-")[0]})
+    # ---- configurations whose constructor arguments are objects the caller keeps and shares between instances (a database array):
+    # a second instance built from the same objects must behave like the first, and the objects must still be what they were
+    for x in ents:
+        if not x.meta.get("shared_args"):
+            continue
+        programs += 1
+        ctx.evaluations += 1
+        second, first = histlib.digest(x.build(), hseed), hmain.get(x.cid)
+        if not (first is not None and len(second) == len(first) and all(
+                np.shape(u) == np.shape(v) and np.asarray(u).dtype == np.asarray(v).dtype
+                and np.allclose(np.asarray(u, np.float64), np.asarray(v, np.float64), rtol=2e-5, atol=2e-5) for u, v in zip(second, first))):
+            ctx.fail(x.cid, "history_dependent", "a second instance built from the same constructor arguments (objects the caller holds) behaves differently "
+                     "from the first: constructing or using the first instance changed them", {"env": x.cid, "cls": x.cls}, {"cls": x.cls})
+        ctx.count("variant_second-instance-shared-arguments")
+    for nm in catalog.shared_args_modified():
+        ctx.fail("constructor-arguments", "constructor_argument_mutated", f"the constructor argument {nm!r} shared by several instances was modified in place "
+                 "(building or resetting an environment changed the caller's array)", {"argument": nm}, {"argument": nm})
     # ---- collect the call-history check
     ent_of = {x.cid: x for x in list(ents) + sibs}
     for x in sibs:
